@@ -5,6 +5,9 @@
 (*  tree = [ objsense : "" or a MAX/MIN spelling (upper case),                *)
 (*           objrow   : name of the first N row, nrows : further N rows,      *)
 (*           objname  : "" or the row named in an OBJNAME section,            *)
+(*           sos, refrow : SOS marker groups and a REFROW section - they       *)
+(*                      restrict integer solutions only and are not part of    *)
+(*                      the linear program the file denotes,                   *)
 (*           rows     : Seq([t : "L"|"G"|"E", name]),                          *)
 (*           cols     : Seq([col, ent : Seq([row, val]), integer]),            *)
 (*           rhs, ranges : Seq([row, val]),  bounds : Seq([t, col, val]) ]     *)
